@@ -21,6 +21,10 @@ fn main() {
         pf::probe_sum_ref_child();
         return;
     }
+    if args.len() > 1 && args[1] == "--probe-shift-zero" {
+        pf::probe_shift_zero_child();
+        return;
+    }
     let mut ctx = Ctx::from_args("C10");
     pf::run(&mut ctx);
     limbs::run(&mut ctx);
